@@ -470,11 +470,13 @@ func (c *Ctx) c01Length() {
 	L := c.L
 	// (a) who may write align.length
 	writers := map[string]bool{}
+	writerFn := map[string]*ssa.Function{}
 	for _, fn := range c.P.SrcFuncs() {
 		allInstrs(fn, func(in ssa.Instruction) {
 			if st, ok := in.(*ssa.Store); ok {
 				if t, f, fa := fieldAddrOf(st.Addr); fa != nil && t == "align" && f == "length" {
 					writers[c.P.FuncName(fn)] = true
+					writerFn[c.P.FuncName(fn)] = fn
 				}
 			}
 		})
@@ -491,6 +493,8 @@ func (c *Ctx) c01Length() {
 	for _, w := range ws {
 		if allowed[w] {
 			L.OK("length-writers", w, "stores align.length", "-", "in the confirmed table")
+		} else if ok, callers := c.privateHelperOf(writerFn[w], func(n string) bool { return allowed[n] }); ok {
+			L.OK("length-writers", w, "stores align.length", "-", "private helper called only from writers of the confirmed table: "+strings.Join(callers, ", "))
 		} else {
 			L.Bad("length-writers", w, "stores align.length", "-", "a function outside the confirmed table writes the cached alignment length")
 		}
@@ -596,7 +600,8 @@ func (c *Ctx) c01Length() {
 		"align.(*align).Split": "per-column counter on the new alignment", "align.(*align).Concat": "row length verified by the closing loop",
 		"align.(*align).Concat$3": "row length verified by the closing loop", "align.seqBagToAlignment$1": "row length of the bag being converted",
 	}
-	for _, fn := range c.P.SrcFuncs("align") {
+	for _, fn0 := range c.srcFuncs("align") {
+		fn := fn0
 		allInstrs(fn, func(in ssa.Instruction) {
 			st, ok := in.(*ssa.Store)
 			if !ok {
@@ -606,6 +611,20 @@ func (c *Ctx) c01Length() {
 				return
 			}
 			name := c.P.FuncName(fn)
+			if _, tabled := verified[name]; !tabled {
+				// a private helper of verified functions is covered by the rule that covers them
+				// (which sees the helper through the inlined view of its caller)
+				cover := ""
+				if ok, _ := c.privateHelperOf(c.origFn(fn), func(n string) bool {
+					if w, is := verified[n]; is {
+						cover = w
+						return true
+					}
+					return false
+				}); ok && cover != "" {
+					verified[name] = cover + " (through the callers of this private helper)"
+				}
+			}
 			pos := c.P.Pos(st.Pos())
 			kind := ""
 			okAll := true
